@@ -387,7 +387,7 @@ class Gen:
             self.stats["kinds"].add("IndexArray_t")
             nbc += 1
             nds = 0
-            for _ in range(rng.choice([0, 1, 2])):
+            for _ in range(rng.choice([0, 1, 2, 3])):
                 dn = self.name("DS")
                 ds, = self.create("dataset %d %d %d %s" % (B, Z, nbc, dn), bc, [(bc, "BCDataSet_t", dn, None)])
                 nds += 1
@@ -756,18 +756,44 @@ class Gen:
             ps = sorted([k for k in b.kids if k.label == "ParticleZone_t"], key=lambda k: k.name.encode())
             b.kids = zs + ps + [k for k in b.kids if k.label not in ("Zone_t", "ParticleZone_t")]
 
-    def delete_some(self):
-        """cg_delete_node of a random deletable child (modify mode); the position stays at the parent"""
-        rng = self.rng
+    def deletable(self):
         cands = [x for x in self.tree.navigable()
                  if x.label in ("UserDefinedData_t", "IntegralData_t", "DiscreteData_t", "FlowSolution_t", "Family_t",
                                 "RigidGridMotion_t", "ArbitraryGridMotion_t", "ZoneSubRegion_t", "GridConnectivity_t",
                                 "OversetHoles_t", "BC_t", "BCDataSet_t", "Elements_t")
                  or (x.label == "DataArray_t" and x.parent.label == "UserDefinedData_t")]
-        cands = [x for x in cands if x.parent is not self.tree.root]
-        if not cands:
-            return
-        x = rng.choice(cands)
+        return [x for x in cands if x.parent is not self.tree.root]
+
+    def delete_sweep(self, limit):
+        """for up to `limit` (parent, kind) groups with two or more deletable siblings: delete one that is NOT the last
+        of its kind, then address every remaining sibling (delete_some does that) -- each arm of cg_delete_node compacts
+        its own child table"""
+        groups = {}
+        for x in self.deletable():
+            groups.setdefault((id(x.parent), x.label), []).append(x)
+        multi = [g for g in groups.values() if len(g) >= 2]
+        self.rng.shuffle(multi)
+        seen = set()
+        for g in multi:
+            if len(seen) >= limit:
+                break
+            if g[0].label in seen and self.rng.random() < 0.7:
+                continue
+            seen.add(g[0].label)
+            # the group may have lost members through an earlier deletion of an ancestor
+            g = [x for x in g if x in self.deletable()]
+            if len(g) >= 2:
+                self.delete_some(self.rng.choice(g[:-1]))
+                self.stats["delete_sweep"] = self.stats.get("delete_sweep", 0) + 1
+
+    def delete_some(self, x=None):
+        """cg_delete_node of a random deletable child (modify mode); the position stays at the parent"""
+        rng = self.rng
+        if x is None:
+            cands = self.deletable()
+            if not cands:
+                return
+            x = rng.choice(cands)
         p = x.parent
         B, base, steps = self.tree.steps(p)
         line = "goto %d %s" % (B, self.mixed_pairs(steps, rng.choice(["idx", "name"])))
@@ -789,6 +815,11 @@ class Gen:
             self.emit("gorel %s" % (("%s 0" % s.name) if byname else ("%s %d" % (lab, idx))), kind="nav", ok=True, why="after_delete:gorel",
                       known_key=self.known_key(s, [s.name]) if byname else None)
             self.observe(s, "m", "after_delete")
+        # every remaining sibling of the deleted node's kind must still be addressable by every spelling (the mirror's
+        # child table was compacted: a wrong bound or a missed shift shows on the siblings BEHIND the deleted one)
+        same = [k for k in p.kids if k.label == x.label and k.label != "Descriptor_t" and (p.label, k.label) in self.tab.arms]
+        for s2 in same[-4:]:
+            self.navigate(s2, "m")
 
 
 def gen_scenario(rng, tab, big, fname):
@@ -836,6 +867,8 @@ def gen_scenario(rng, tab, big, fname):
             g.navigate(rng.choice(nav), "m")
         if rng.random() < 0.25:
             g.emit("@mirror", kind="mirror")
+    g.delete_sweep(4 if big else 2)
+    g.emit("@mirror", kind="mirror")
     g.emit("close", kind="create")
     return g
 
